@@ -18,6 +18,7 @@ import (
 	"fmt"
 	"io"
 	"net"
+	"os"
 	"strconv"
 	"strings"
 	"sync"
@@ -195,7 +196,11 @@ func execSctpServe(toks []string) string {
 			be.mu.Unlock()
 		}
 	})
-	c, err := diam.NewConn(msc, "mem-sctp", h, dict.Default)
+	var hh diam.Handler = h
+	if os.Getenv("VERIF_DEBUG") != "" {
+		hh = dbgHandler{h}
+	}
+	c, err := diam.NewConn(msc, "mem-sctp", hh, dict.Default)
 	if err != nil {
 		return "err"
 	}
@@ -230,8 +235,19 @@ func execSctpServe(toks []string) string {
 	be.Close()
 	mu.Lock()
 	defer mu.Unlock()
-	return strings.TrimSpace(strings.Join(events, " ") + " end=" + end + " cn=" + cnState)
+	// the stream the reader was pinned to when it stopped (which buffered stream the heap served
+	// last is not observable otherwise; ties between equally long buffers are the heap's choice)
+	at := ""
+	if cs := msc.CurrentStream(); cs != diam.InvalidStreamID {
+		at = fmt.Sprintf(" at=%d", cs)
+	}
+	return strings.TrimSpace(strings.Join(events, " ") + " end=" + end + " cn=" + cnState + at)
 }
+
+type dbgHandler struct{ diam.HandlerFunc }
+
+func (d dbgHandler) Error(er *diam.ErrorReport)              { fmt.Fprintln(os.Stderr, "ERROR REPORT:", er.Error) }
+func (d dbgHandler) ErrorReports() <-chan *diam.ErrorReport { return nil }
 
 // ---- generators
 
